@@ -103,4 +103,79 @@ Proof.
 Qed.
 Lemma boxes_complete l x : In x l -> exists lx, box_get (cell (snd x)) (boxes l) = Some lx /\ In x lx.
 Proof. intros; apply boxes_complete_aux; auto. Qed.
+
+Lemma box_get_in c bs v : box_get c bs = Some v -> In (c, v) bs.
+Proof.
+  induction bs as [|[c' l'] r IH]; simpl; [discriminate|].
+  destruct (ceqb c c') eqn:E.
+  - intros H; inversion H; subst. apply ceqb_eq in E; subst. left; reflexivity.
+  - intros H; right; auto.
+Qed.
+
+Lemma pairs_within_complete : forall (v : list iatom) x y, In x v -> In y v -> x <> y ->
+  In (x, y) (pairs_within v) \/ In (y, x) (pairs_within v).
+Proof.
+  induction v as [|h t IH]; intros x y Hx Hy Hne; [contradiction|]. simpl in *.
+  destruct Hx as [->|Hx], Hy as [->|Hy].
+  - congruence.
+  - left. apply in_or_app; left. apply in_map_iff; eauto.
+  - right. apply in_or_app; left. apply in_map_iff; eauto.
+  - destruct (IH x y Hx Hy Hne); [left|right]; apply in_or_app; right; assumption.
+Qed.
+
+Lemma pairs_between_complete (v1 v2 : list iatom) x y : In x v1 -> In y v2 -> In (x, y) (pairs_between v1 v2).
+Proof. intros. unfold pairs_between. apply in_flat_map. exists x; split; auto. apply in_map_iff; eauto. Qed.
+
+Lemma mem_cell_in d l : mem_cell d l = true -> In d l.
+Proof. unfold mem_cell. rewrite existsb_exists. intros [x [Hx E]]. apply ceqb_eq in E; subst; auto. Qed.
+
+Lemma adjacent_dir c1 c2 : adjacent c1 c2 -> c1 <> c2 ->
+  exists d, In d all_dirs /\ ceqb d (0,0,0) = false /\ c2 = cadd c1 d /\ c1 = cadd c2 (cneg d).
+Proof.
+  destruct c1 as [[x y] z], c2 as [[a b] e]. unfold adjacent. intros (Hx & Hy & Hz) Hne.
+  exists (a - x, b - y, e - z). split; [|split; [|split]].
+  - assert (Ha : a - x = -1 \/ a - x = 0 \/ a - x = 1) by lia.
+    assert (Hb : b - y = -1 \/ b - y = 0 \/ b - y = 1) by lia.
+    assert (He : e - z = -1 \/ e - z = 0 \/ e - z = 1) by lia.
+    destruct Ha as [->|[->| ->]], Hb as [->|[->| ->]], He as [->|[->| ->]]; vm_compute; tauto.
+  - destruct (ceqb (a - x, b - y, e - z) (0,0,0)) eqn:E; [|reflexivity].
+    apply ceqb_eq in E. inversion E. exfalso. apply Hne. f_equal; [f_equal|]; lia.
+  - unfold cadd. f_equal; [f_equal|]; lia.
+  - unfold cadd, cneg. f_equal; [f_equal|]; lia.
+Qed.
+
+Lemma half_space d : In d all_dirs -> ceqb d (0,0,0) = false -> In d offsets \/ In (cneg d) offsets.
+Proof.
+  intros Hin Hnz. pose proof offsets_half_space as H. rewrite forallb_forall in H. specialize (H d Hin).
+  rewrite Hnz in H. destruct (mem_cell d offsets) eqn:E1; [left; apply mem_cell_in; auto|].
+  destruct (mem_cell (cneg d) offsets) eqn:E2; [right; apply mem_cell_in; auto| discriminate].
+Qed.
+
+Lemma examined_between bs c v d v2 x y : In (c, v) bs -> In d offsets -> box_get (cadd c d) bs = Some v2 ->
+  In x v -> In y v2 -> In (x, y) (examined bs).
+Proof.
+  intros Hc Hd Hg Hx Hy. unfold examined. apply in_flat_map. exists (c, v). split; [assumption|].
+  apply in_or_app. right. apply in_flat_map. exists d. split; [assumption|]. rewrite Hg. apply pairs_between_complete; assumption.
+Qed.
+
+(* completeness: every pair the O(n^2) rule bonds is handed to the pair test by the cell list *)
+Theorem examined_complete : forall (L : list iatom) x y, In x L -> In y L -> x <> y ->
+  check (snd x) (snd y) = true ->
+  In (x, y) (examined (boxes L)) \/ In (y, x) (examined (boxes L)).
+Proof.
+  intros L x y Hx Hy Hne Hc.
+  destruct (boxes_complete L x Hx) as [vx [Gx Ix]].
+  destruct (boxes_complete L y Hy) as [vy [Gy Iy]].
+  pose proof (check_near _ _ Hc) as Hadj.
+  destruct (ceqb (cell (snd x)) (cell (snd y))) eqn:E.
+  - apply ceqb_eq in E. rewrite <- E in Gy. rewrite Gx in Gy. inversion Gy; subst vy.
+    destruct (pairs_within_complete vx x y Ix Iy Hne) as [H|H]; [left|right];
+      unfold examined; apply in_flat_map; exists (cell (snd x), vx); (split; [apply box_get_in; assumption| apply in_or_app; left; assumption]).
+  - assert (Hcne : cell (snd x) <> cell (snd y)) by (intros H; apply ceqb_eq in H; congruence).
+    destruct (adjacent_dir _ _ Hadj Hcne) as [d (Hd & Hnz & Hy2 & Hx2)].
+    destruct (half_space d Hd Hnz) as [Ho|Ho].
+    + left. apply (examined_between (boxes L) (cell (snd x)) vx d vy); auto using box_get_in. rewrite <- Hy2. exact Gy.
+    + right. apply (examined_between (boxes L) (cell (snd y)) vy (cneg d) vx); auto using box_get_in. rewrite <- Hx2. exact Gx.
+Qed.
 End Cells.
+Print Assumptions examined_complete.
